@@ -18,7 +18,7 @@ RULE = (
   "ne/nf/nl/nefc, contact multiset, solver_niter; evaluation = one (world, step); non-trivial = worlds differ in contact count and some world has nefc>0"
 )
 ASSUMPTIONS = ["ample capacities (cases with any capacity overflow bit are discarded and counted)", "CPU device, canonical thread order"]
-BUDGET = {"quick": dict(examples=200, seconds=150, workers=16), "thorough": dict(examples=4000, seconds=1500, workers=16)}
+BUDGET = {"quick": dict(examples=200, seconds=420, workers=16), "thorough": dict(examples=4000, seconds=1500, workers=16)}
 
 _FIELDS = ["qpos", "qvel", "act", "qacc", "qacc_warmstart", "time", "sensordata", "qfrc_constraint", "qfrc_actuator", "xpos", "subtree_com"]
 _CAP = int(OT.NEFC | OT.NJMAX_NNZ | OT.BROADPHASE | OT.NARROWPHASE | OT.CCD | OT.NVMAX | OT.HFIELD | OT.EPA_HORIZON | OT.CONTACT_MATCH)
